@@ -47,7 +47,7 @@ ASSUMPTIONS = [
     "same bytes; values containing non-finite floats are excluded from this clause",
     "for accepted foreign payloads one decode-encode pass must reach a fixed point that decodes to the same value",
 ]
-MUST_REACH = {"quantised_raws_placed_in_payloads": 300, "payloads_decoded_after_an_edit_elsewhere": 2000, "serializer_keys_covered": 180, "int_raw_checks": 100000, "byte_payload_checks": 1000,
+MUST_REACH = {"block_objects_edited_in_place_and_written_back": 15, "quantised_raws_placed_in_payloads": 300, "payloads_decoded_after_an_edit_elsewhere": 2000, "serializer_keys_covered": 180, "int_raw_checks": 100000, "byte_payload_checks": 1000,
               "fuzz_accepted": 50, "literal_checks": 10000, "literal_checks_through_library_printer": 5000, "refused_encodes_before_good_ones": 60, "template_reloads_provoked": 3, "entry_orders_compared": 500, "blocks_moved_between_messages": 4, "calls_from_concurrent_threads": 300, "values_encoded_after_template_reload": 20, "block_api_checks": 500, "block_member_assignments": 50, "block_pretty_assignments": 100, "block_values_scribbled": 40, "tz_covered": 3,
               "negative_raws_on_signed_flag_fields": 10, "context_values": 20}
 
@@ -599,6 +599,25 @@ def check_bytes_key(ctx, rng, key, ser, var):
                         ctx.violation("block-cache-aliased", "editing a value returned by Block.deserialize_var changed what the "
                                       "block returns for the same raw bytes", {"key": list(key), "context": label, "payload": p[:120],
                                                                              "before": repr(before)[:200], "after": repr(gen_spec.canon(again))[:200]})
+                # the other way to use it: take the block's own object (no copy), edit it in place, write the same object back -
+                # the field's bytes are then the encoding of the edited object, and the block hands out the edited value
+                block[vname] = p
+                own = block.deserialize_var(vname, make_copy=False)
+                if _scribble_all(own):
+                    try:
+                        want_bytes = bytes(ser.serialize(block, own))
+                    except Exception:
+                        want_bytes = None
+                    if want_bytes is not None and want_bytes != p:
+                        block.serialize_var(vname, own)
+                        ctx.count("block_objects_edited_in_place_and_written_back")
+                        if bytes(block[vname]) != want_bytes:
+                            ctx.violation("block-write-back-of-edited-object-ignored", "an object taken from the block without a copy "
+                                          "was edited in place and written back with serialize_var: the field still holds other bytes "
+                                          "than the encoding of the edited object",
+                                          {"key": list(key), "context": label, "payload": p[:120], "field_now": bytes(block[vname])[:120],
+                                           "encoding_of_edited_object": want_bytes[:120]})
+                block[vname] = p
                 v = block.deserialize_var(vname)
                 block.serialize_var(vname, v)
                 if bytes(block[vname]) != p:
